@@ -53,6 +53,17 @@ CLAIMED = {
              "in the thorough tier only. Index form <-> true Hamming / Levenshtein distance: Lean lemmas (hand-transcribed statements).",
         technique="contract-based deductive verification: VCs from the real AST (search-loop rule with nested witnesses, induction lemmas), cvc5 + z3, Lean lemmas",
         design="5/C12"),
+    "C13": dict(
+        text="pc_conditional is verified to return NaN when fewer than two rows remain in groups of at least two members and otherwise the "
+             "w^2-weighted mean (uniform weights by default, given weights squared and normalised) of pc (pc_joint for a column list) over exactly "
+             "those groups; pcDelta_grouped to return, per group, that group's own pcDelta with the caller's options, labelled by the left bin edges "
+             "only for an edge vector; renyi2_entropy = -ln(pc | pc_joint | pc_conditional)/ln(base) (no division for base None), stdrenyi2_entropy = "
+             "stdpc/(pc ln base) (joint forms for a column list), ValueError exactly for base <= 0 - for all tables, keys, weights and bases.",
+        note=NOTE_COMMON + " TERM LEVEL over opaque tables (pandas groupby/filter/apply assumed; the per-group statistics are uninterpreted applications of "
+             "pc / pcDelta / stdpc whose own contracts are discharged under C02 / C05 / C06). pc_grouped_cross and pcDelta_grouped_cross are covered by "
+             "BOUNDED stand-ins only.",
+        technique="contract-based deductive verification: VCs from the real AST over opaque table terms and the polynomial vector abstraction, z3 + cvc5; bounded stand-ins for the two cross tables",
+        design="5/C13"),
     "C15": dict(
         text="graph_clustering ('cc', 'fastgreedy', 'multilevel', 'leiden'; the method name reaches igraph through eval of an f-string, which the "
              "generator evaluates on each path) is verified, for every neighbour list including the EMPTY one and list / ndarray / Series node labels, "
